@@ -51,7 +51,10 @@ def render(patch):
             head = {"none": "", "text": " fn foo(a: u32) {", "plusnum": " let x = y +7;"}[h["heading"]]
             out.append(f"@@ {o} {n} @@{head}")
             for k in range(h["oc"]):
-                out.append(f"-    old line {k}")
+                if k == 0 and h["body"] == "minus3":
+                    out.append("--- a/other/z.rs")      # the removed line `-- a/other/z.rs`
+                else:
+                    out.append(f"-    old line {k}")
             for k in range(h["nc"]):
                 if k == 0 and h["body"] == "plus3":
                     out.append("+++ b/other/z.rs")
@@ -164,7 +167,8 @@ def run(tier, seed, replay=None):
     main = core.printed_json(res, "REPLAY")
     states, trans = res.distinct, res.states
     extra = []
-    for cfg in ("FormatDiff_heading.cfg", "FormatDiff_plus3.cfg", "FormatDiff_short.cfg"):
+    for cfg in ("FormatDiff_heading.cfg", "FormatDiff_plus3.cfg", "FormatDiff_short.cfg",
+                "FormatDiff_minus3.cfg"):
         r2 = tlc("MC_FormatDiff", cfg, workers=4, timeout=900)
         if not r2.ok:
             raise ToolError(f"{cfg}: " + (r2.violation or "")[:500])
